@@ -590,6 +590,7 @@ func c11one(c *Ctx, idx int) {
 	// score tables (sequential, before any Compare): exact values of the float64 scores
 	var tT, tF []string
 	scores := map[float64]int{}
+	atThreshold := false // the model takes the float64 scores and thresholds as exact values: equality is decided alike on both sides
 	for _, a := range l.indis {
 		for _, b := range rt.indis {
 			f := a.SurroundingSimilarity(b, so, false).WeightedSimilarity()
@@ -599,12 +600,21 @@ func c11one(c *Ctx, idx int) {
 			if f >= so.MinimumWeightedSimilarity {
 				scores[f]++
 			}
+			if f == so.MinimumWeightedSimilarity {
+				atThreshold = true
+			}
 			if a.Pointer() == b.Pointer() {
+				if t := a.SurroundingSimilarity(b, so, true).WeightedSimilarity(); t == so.PreferPointerAbove {
+					atThreshold = true
+				}
 				if t := a.SurroundingSimilarity(b, so, true).WeightedSimilarity(); t != 0 {
 					tT = append(tT, fmt.Sprintf("%d,%d,%s", ids[a], ids[b], c11exact(t)))
 				}
 			}
 		}
+	}
+	if atThreshold {
+		c.Count("case:a score exactly equal to MinimumWeightedSimilarity or PreferPointerAbove")
 	}
 	ties := false
 	for _, n := range scores {
